@@ -148,7 +148,7 @@ Section Eval.
     | Const q => ofQ q
     | Var x => rho x
     | Proxy n => px n
-    | App f args => st (map (geval rho px) args) (feval (map (geval rho px) args) (fwd f))
+    | App f args => let l := map (geval rho px) args in st l (feval l (fwd f))
     end.
 End Eval.
 
